@@ -210,6 +210,11 @@ def build_inputs(ws, cls, n_inputs, rng, rec):
                     obj.add_data({nm: {"values": vals.copy(), "association": assoc, "type": "integer"}})
                 s["data"][nm] = {"assoc": assoc, "kind": kind, "values": vals.tolist(), "tname": tname}
                 spec["data_names"].add((nm, assoc, kind, tname))
+        if rng.random() < 0.2:
+            # a number that belongs to the object as a whole (not to its vertices or cells): it cannot be concatenated, and it
+            # must not get in the way of the merge either
+            obj.add_data({"whole-object number": {"values": np.array([float(k)]), "association": "OBJECT"}})
+            rec.see("inputs-with-object-level-numbers")
         inputs.append(obj)
         spec["inputs"].append(s)
     present = [set(s["data"]) for s in spec["inputs"]]
